@@ -93,18 +93,7 @@ theorem Ethernet_accepts_iff (t : Eth) (buf : Bytes) (fcs : Bool) :
       14 ≤ buf.length ∧ (beNat (slice buf 12 14) = 0x8100 → 18 ≤ buf.length) ∧
       (fcs = true → crc32 (buf.take (buf.length - 4)) = leNat (buf.drop (buf.length - 4))) := by
   by_cases hl : buf.length < 14
-  · have hs : (Eth.unpack t buf fcs).2 = .error .struct := by
-      by_cases h6 : buf.length < 6
-      · rw [Eth.unpack, unpack48_error _ (by simp; omega)]
-      · by_cases h12 : buf.length < 12
-        · rw [Eth.unpack, unpack48_eq _ (by simp; omega)]
-          simp only
-          rw [unpack48_error _ (by simp; omega)]
-        · rw [Eth.unpack, unpack48_eq _ (by simp; omega)]
-          simp only
-          rw [unpack48_eq _ (by simp; omega)]
-          have : ¬ (12 + (2 + 0) ≤ buf.length) := by omega
-          simp [structUnpackFrom, Eth_unpack_fmt0, Fmt.size, codesSize, Code.size, this]
+  · have hs := Eth_unpack_short t buf fcs hl
     rw [hs]; simp; omega
   · rw [Eth_unpack_eq _ _ _ (by omega)]
     simp only [ethFinish, fld, ETH_TYPE_VLAN]
